@@ -4,6 +4,9 @@ import (
 	"bufio"
 	"bytes"
 	"context"
+	"crypto/ed25519"
+	"crypto/sha256"
+	"encoding/binary"
 	"encoding/json"
 	"fmt"
 	"os"
@@ -30,12 +33,19 @@ import (
 //	outage [of|k] ms  close that link and refuse every connection attempt (close it during its handshake) for ms,
 //	                  counted from the client's first attempt; then accept again on the same address with the same key
 //	pause ms
+//	authnonce [of|k]  (authenticated connections) send tcp.authentificationNonce once more on that link
+//
+// "cut" (1..6) on ans / dup / unk / other writes the frame in two pieces with a pause of "ms": after 1, 2, 3 bytes of the size
+// prefix, inside the nonce, inside the payload, inside the checksum. "m" on other picks the constructor: 0 unknown,
+// 1 tcp.authentificationComplete, 2 tcp.authentificate.
 type Step struct {
-	A  string `json:"a"`
-	I  int    `json:"i"`
-	K  int    `json:"k"`
-	Of int    `json:"of"`
-	Ms int    `json:"ms"`
+	A   string `json:"a"`
+	I   int    `json:"i"`
+	K   int    `json:"k"`
+	Of  int    `json:"of"`
+	Ms  int    `json:"ms"`
+	Cut int    `json:"cut"`
+	M   int    `json:"m"`
 }
 
 type Script struct {
@@ -60,6 +70,11 @@ type Script struct {
 	HoldTimeoutUs int `json:"hold_timeout_us"`
 	// QBytes: padding of every query body (large frames make the writes of concurrent senders overlap)
 	QBytes int `json:"q_bytes"`
+	// Auth: the connections are made with an ed25519 authentication key; the server plays the tcp.authentificate exchange
+	Auth bool `json:"auth"`
+	// SplitEvery / SplitMs: the server writes every SplitEvery-th packet in two pieces (cut position cycling through the frame's regions)
+	SplitEvery int `json:"split_every"`
+	SplitMs    int `json:"split_ms"`
 }
 
 type callRes struct {
@@ -105,17 +120,24 @@ func Drive(in string, index int, w *ev.Writer, seed int64, tracePath string) err
 	if err != nil {
 		return err
 	}
+	sv.splitEvery, sv.splitMs, sv.authMode = sc.SplitEvery, sc.SplitMs, sc.Auth
 	ctx := context.Background()
-	c0, err := liteclient.NewConnection(ctx, sv.srv.PublicKey(), sv.srv.Addr())
+	var authKeys []ed25519.PrivateKey
+	if sc.Auth {
+		ks := sha256.Sum256([]byte(fmt.Sprintf("C12/auth/%d/%d", seed, sc.ID)))
+		authKeys = append(authKeys, ed25519.NewKeyFromSeed(ks[:]))
+	}
+	c0, err := liteclient.NewConnection(ctx, sv.srv.PublicKey(), sv.srv.Addr(), authKeys...)
 	if err != nil {
-		return fmt.Errorf("NewConnection: %w", err)
+		return setupFailed(w, sc, fmt.Sprintf("NewConnection: %v", err))
 	}
 	client := liteclient.NewClient(c0, liteclient.OptionTimeout(timeout), liteclient.OptionWorkersPerConnection(sc.NConns))
 	if !sv.waitOpen(sc.NConns, 20*time.Second) {
-		return fmt.Errorf("only %d of %d connections came up", len(sv.openLinks()), sc.NConns)
+		return setupFailed(w, sc, fmt.Sprintf("only %d of %d connections came up", len(sv.openLinks()), sc.NConns))
 	}
 	time.Sleep(20 * time.Millisecond)
 	rec.emit(map[string]any{"k": "ready"})
+	sv.splitOn.Store(true) // the split policy applies from here on (the initial connections are up)
 	cen0, _ := census()
 
 	// ---------------------------------------------------------------- callers
@@ -298,6 +320,7 @@ func Drive(in string, index int, w *ev.Writer, seed int64, tracePath string) err
 	res["hang"] = hang != ""
 	res["hung_calls"] = ints(hung)
 	res["stream_corrupt"] = int(sv.nCorrupt.Load())
+	res["auth_ok"], res["auth_bad"], res["splits"] = int(sv.nAuthOK.Load()), int(sv.nAuthBad.Load()), int(sv.nSplit.Load())
 	res["outage_back_ms"] = outageBackMs
 	if len(hang) > 6000 {
 		hang = hang[:6000]
@@ -319,6 +342,14 @@ func Drive(in string, index int, w *ev.Writer, seed int64, tracePath string) err
 		res["notes"] = notes
 	}
 	w.Emit(res)
+	w.Emit(ev.M{"k": "End", "events": 1})
+	return nil
+}
+
+// setupFailed records that the client could not establish its initial connections against a conforming server
+// (judged by the check after re-execution, like every other observation).
+func setupFailed(w *ev.Writer, sc *Script, what string) error {
+	w.Emit(ev.M{"k": "Result", "id": sc.ID, "cls": sc.Cls, "mode": sc.Mode, "setup_failed": what, "nconns": sc.NConns, "timeout_ms": sc.TimeoutMs})
 	w.Emit(ev.M{"k": "End", "events": 1})
 	return nil
 }
@@ -405,9 +436,13 @@ func (sv *server) run(sc *Script, timeout time.Duration) {
 			sv.waitArrival(st.I, w)
 		case "ans":
 			if a := sv.waitArrival(st.I, 50*time.Millisecond); a != nil {
-				if sv.send(a.l, "srv.ans", a.id, hash8(a.data), frameAnswer(a.id, a.data)) {
+				if sv.sendCut(a.l, "srv.ans", a.id, hash8(a.data), frameAnswer(a.id, a.data), st.Cut, st.Ms) {
 					a.sent.Store(true)
 				}
+			}
+		case "authnonce":
+			if l := resolve(st); l != nil {
+				sv.sendAuthNonce(l, nil)
 			}
 		case "dup":
 			if a := sv.arrivalOf(st.I); a != nil && a.sent.Load() { // a duplicate of an answer that was produced
@@ -417,13 +452,13 @@ func (sv *server) run(sc *Script, timeout time.Duration) {
 						l = x
 					}
 				}
-				sv.send(l, "srv.dup", a.id, hash8(a.data), frameAnswer(a.id, a.data))
+				sv.sendCut(l, "srv.dup", a.id, hash8(a.data), frameAnswer(a.id, a.data), st.Cut, st.Ms)
 			}
 		case "unk":
 			if l := resolve(st); l != nil {
 				id := randomID()
 				data := sv.answerFor(id)
-				sv.send(l, "srv.unk", nil, hash8(data), frameAnswer(id, data))
+				sv.sendCut(l, "srv.unk", nil, hash8(data), frameAnswer(id, data), st.Cut, st.Ms)
 			}
 		case "pong":
 			if l := resolve(st); l != nil {
@@ -431,8 +466,14 @@ func (sv *server) run(sc *Script, timeout time.Duration) {
 			}
 		case "other":
 			if l := resolve(st); l != nil {
-				p := append([]byte{0x34, 0x12, 0x5a, 0x5a}, randomID()...)
-				sv.send(l, "srv.other", nil, hash8(p), p)
+				mg := uint32(magicOther)
+				if st.M == 1 {
+					mg = magicAuthComplete
+				} else if st.M == 2 {
+					mg = magicAuth
+				}
+				p := append(binary.LittleEndian.AppendUint32(nil, mg), randomID()...)
+				sv.sendCut(l, "srv.other", nil, hash8(p), p, st.Cut, st.Ms)
 			}
 		case "drop":
 			if l := resolve(st); l != nil {
